@@ -86,7 +86,8 @@ def _mk_fn(name, params, body_call, g):
 
 def mk_abi_method(real: Real, m, k):
     pt = real.pt
-    params = [f"a{i}: pt.abi.{TY[t]}" for i, t in enumerate(m["args"])]
+    # (a value-less method may call its first parameter `output`: an ordinary positional parameter, part of the signature)
+    params = [f"{'output' if (i == 0 and m.get('pos_output') and m['ret'] == 'void') else 'a' + str(i)}: pt.abi.{TY[t]}" for i, t in enumerate(m["args"])]
     if m["ret"] != "void":
         params.append(f"*, output: pt.abi.{TY[m['ret']]}")
 
@@ -516,7 +517,7 @@ def gen_cfg(r, max_methods):
         elif c < 0.65:
             # registered under another name than the Python function's: dispatch must use the REGISTERED signature
             via = "add-override"
-        methods.append({"name": f"m{k}", "args": list(args), "ret": ret, "mc": mc, "via": via})
+        methods.append({"name": f"m{k}", "args": list(args), "ret": ret, "mc": mc, "via": via, "pos_output": r.random() < 0.25})
     if len(methods) >= 2 and r.random() < 0.3:
         # ARC-4 overloads: two handlers of ONE name with different argument lists (different signatures, different selectors)
         i, j = r.sample(range(len(methods)), 2)
